@@ -29,6 +29,12 @@ import (
 func NewStack(via string) (outer *fifo.Group, inner *fifo.Group) {
 	outer = fifo.NewGroup()
 
+	// Every member runs even when an earlier one reports an error: a failing
+	// user modifier must not keep the response from losing its hop-by-hop
+	// headers or a looping request from being answered 400, and a request
+	// flagged for bad framing is still stamped and checked for loops.
+	outer.SetAggregateErrors(true)
+
 	hbhm := header.NewHopByHopModifier()
 	outer.AddRequestModifier(hbhm)
 	outer.AddRequestModifier(header.NewForwardedModifier())
